@@ -31,7 +31,7 @@ SPECIAL_FLOATS = [NAN, INF, -INF, -0.0, 1e308, 1e-5, 2.0,
                   # ints held by a float vector (an int belongs to the float kind): small, beyond 2**53, beyond the float range
                   3, 2 ** 53 + 1, 10 ** 400, -10 ** 400]
 SETTINGS = [None, 0, 1, 2, 3, 4, 5, 12, 13]
-NAMESV = [None, "nm", "x y", "sum", "", 5, (1, 2), 2.5]          # names need not be strings (Table({1: [...]}))
+NAMESV = [None, "nm", "x y", "sum", "", 5, (1, 2), 2.5, [1, 2], {"k": 1}]          # names need not be strings (Table({1: [...]})), nor hashable (v.name = [...])
 
 
 def token(v, kind=None):
@@ -487,7 +487,7 @@ def run_unit(unit):
                 check_table(agg, lay, nrows, setting)
         if setting is None:
             for pt in (0, 1, 2, 4, 200):
-                for nrows in (0, 1, 3, 5):
+                for nrows in (0, 1, 3, 5) + ((14, 30, 120, 201) if pt == 200 else ()):
                     check_table(agg, layouts[1] if width else [], nrows, None, per_table=pt)
         agg.sample({"table-width": width, "set_repr_rows": setting, "rows": rowsets, "layouts": len(layouts)})
     return agg
